@@ -85,6 +85,8 @@ class C09(core.Prop):
                 if ll == 1:
                     # the same string after other use of the library in the same process (pipeline.prelude)
                     out.append({'mode': 'tmpl', 'text': t, 'lablen': ll, 'prelude': True})
+                    # ... and through another constructor / driver (pipeline.VARIANTS)
+                    out.append({'mode': 'tmpl', 'text': t, 'lablen': ll, 'variant': 1 + (len(out) % (len(pl.VARIANTS) - 1))})
         # all-atom sampler outputs (the exploration of C16, judged here by the valence clauses only)
         from .c16 import CONFIGS, PROP as C16P
         for sh in C16P.shapes(tier):
@@ -134,6 +136,8 @@ class C09(core.Prop):
             return C16P.execute(M, shape['sampler'], inp)
         if shape.get('prelude'):
             pl.prelude(M)
+        if shape.get('variant'):
+            return core.guard(pl.run_variant, M, inp['text'], pl.VARIANTS[shape['variant']])
         return core.guard(pl.run_resolver, M, inp['text'])
 
     def oracle(self, shape, inp, obs):
